@@ -226,27 +226,30 @@ func ruleKeyBlock(c *Ctx, r *Report) {
 		"ServerWriteIV":  {"ivLen+2*keyLen+2*macLen", "ivLen"},
 	}
 	seen := 0
-	for _, b := range fn.Blocks {
-		for _, in := range b.Instrs {
-			st, ok := in.(*ssa.Store)
-			if !ok {
-				continue
+	// symbolic execution of the partition: works for the straight-line slicing as well as for a
+	// cursor (closure or helper) that hands out consecutive pieces
+	outs := c.symRun(fn, nil, func(g *ssa.Function) bool { return g.Parent() != nil || (g.Pkg == fn.Pkg && !token.IsExported(g.Name()) && g.Name() != "PHash") })
+	if len(outs) == 0 {
+		r.Unk(rule, short(fn), c.pos(fn.Pos()), "no successful return found by the symbolic execution")
+	}
+	for oi, ro := range outs {
+		st := ro.St.(*symState)
+		for f, w := range want {
+			sv, has := st.fields[pkgPRF+".EncryptionKeys."+f]
+			key := short(fn) + ":" + f
+			if oi > 0 {
+				key += fmt.Sprintf("#%d", oi+1)
 			}
-			o, f, _, ok := fieldOfAddr(st.Addr)
-			if !ok || o != pkgPRF+".EncryptionKeys" {
-				continue
-			}
-			w, has := want[f]
 			if !has {
+				r.Bad(rule, key, c.ipos(ro.Ret), f+" is not assigned on a successful path")
 				continue
 			}
 			seen++
-			base, off, ln := sliceChain(a, st.Val)
-			isPHash := base != nil && isCallResult(base, nameIs(pkgPRF+".PHash"))
-			offS, lnS := linString(off), linString(ln)
-			r.Check(isPHash && offS == w[0] && lnS == w[1], rule, short(fn)+":"+f, c.ipos(in),
+			isPHash := sv.base != nil && isCallResult(sv.base, nameIs(pkgPRF+".PHash"))
+			offS, lnS := linString(sv.off), linString(sv.ln)
+			r.Check(isPHash && offS == w[0] && lnS == w[1], rule, key, c.ipos(ro.Ret),
 				fmt.Sprintf("%s = key_block[%s : +%s]", f, offS, lnS),
-				fmt.Sprintf("%s is key_block[%s : +%s] but RFC 5246 6.3 puts it at [%s : +%s]", f, offS, lnS, w[0], w[1]))
+				fmt.Sprintf("%s is key_block[%s : +%s] (key block = PHash output: %v) but RFC 5246 6.3 puts it at [%s : +%s]", f, offS, lnS, isPHash, w[0], w[1]))
 		}
 	}
 	r.Floor(rule, seen, 6)
@@ -594,12 +597,20 @@ func ruleKeyMirror(c *Ctx, r *Report) {
 		r.Sites += len(fn.Blocks)
 		for _, role := range []bool{true, false} {
 			rl := role
-			w := (&Walk{Fn: fn, Assume: func(v ssa.Value) (Val, bool) {
+			rawAt := map[ssa.Instruction]map[*ssa.Phi]ssa.Value{}
+			w := &Walk{Fn: fn, Assume: func(v ssa.Value) (Val, bool) {
 				if v == isClient {
 					return vBool(rl), true
 				}
 				return unknown, false
-			}}).FromEntry()
+			}}
+			w.VisitRaw = func(in ssa.Instruction, _ Env, raw map[*ssa.Phi]ssa.Value) bool {
+				if _, isCall := in.(*ssa.Call); isCall {
+					rawAt[in] = raw
+				}
+				return true
+			}
+			w.FromEntry()
 			reached := 0
 			for _, ci := range ctorCalls {
 				if !w.Reached[ci] {
@@ -622,7 +633,7 @@ func ruleKeyMirror(c *Ctx, r *Report) {
 					default:
 						continue
 					}
-					_, f, _, isField := fieldLoad(ci.Common().Args[i])
+					_, f, _, isField := fieldLoad(resolvePhis(ci.Common().Args[i], rawAt[ci]))
 					if !isField {
 						okAll = false
 						desc = append(desc, pn+"=<not a key field>")
@@ -660,15 +671,14 @@ func ruleKeySchedule13(c *Ctx, r *Report) {
 	ks := "pkg/crypto/keyschedule"
 	if fn := c.need(r, rule, ks+".HkdfExpandLabel"); fn != nil {
 		r.Sites += len(fn.Blocks)
-		var bytesCall *ssa.Call
-		for _, ci := range callsIn(fn, nameHasSuffix("cryptobyte.Builder).Bytes")) {
-			bytesCall = ci.(*ssa.Call)
-		}
-		if bytesCall == nil {
-			r.Unk(rule, short(fn), c.pos(fn.Pos()), "HkdfLabel builder not found")
+		// the info argument of HKDF-Expand is the serialised HkdfLabel (built here or by a helper)
+		exps := callsIn(fn, nameIs("crypto/hkdf.Expand[hash.Hash]", "crypto/hkdf.Expand"))
+		if len(exps) != 1 {
+			r.Unk(rule, short(fn), c.pos(fn.Pos()), fmt.Sprintf("%d HKDF-Expand calls (expected 1)", len(exps)))
 		} else {
-			l, err := c.builderLayout(bytesCall.Call.Args[0], bytesCall)
-			c.checkLayout(r, rule, short(fn), bytesCall, l, err,
+			exp := exps[0].(*ssa.Call)
+			l, err := c.LayoutOf(exp.Call.Args[2], exp, 0)
+			c.checkLayout(r, rule, short(fn), exp, l, err,
 				`length[1..0] u8len{ "dtls13"[*] label[*] } u8len{ context[*] }`,
 				"RFC 8446 7.1 HkdfLabel{uint16 length; opaque label<7..255> = prefix + Label; opaque context<0..255>} with the RFC 9147 5.9 prefix \"dtls13\"")
 			// expand is called with (hash, secret, that label, length)
@@ -934,4 +944,20 @@ func (c *Ctx) constStringByName(rel, name string) (string, bool) {
 
 func constantInt64(k *types.Const) (int64, bool) {
 	return constant.Int64Val(k.Val())
+}
+
+// resolvePhis follows phis along the resolutions of one explored path.
+func resolvePhis(v ssa.Value, raw map[*ssa.Phi]ssa.Value) ssa.Value {
+	for i := 0; i < 16; i++ {
+		p, ok := v.(*ssa.Phi)
+		if !ok {
+			return v
+		}
+		r, ok := raw[p]
+		if !ok || r == v {
+			return v
+		}
+		v = r
+	}
+	return v
 }
